@@ -316,11 +316,14 @@ package main
 // a locally verified time-based code: evaluated at most once per two seconds and never while locked out (C14);
 // a code of the 30 s period that was already accepted is not evaluated again (C05 one-time)
 //@ pure func totpPeriodOf(t time_.Time) int64 = int64(fpFloor(float64(timeNanos(t) / 1000000000) / float64(30)))
+//@ ghost var ghostTotpGateSeen int64
 //@ func (*RuntimeState).validateUserTOTP
 //@   requires ghostAuthed && username == ghostAuthUser                                                    #C08.totp-own-profile @C08,C06
 //@   ghostset ghostVerifiedBits int = ghostVerifiedBits | AuthTypeTOTP if ret0 && ret1 == nil && username == ghostAuthUser
 //@   atcall github.com/pquerna/otp/totp.Validate requires (passcode string, secret string) :: ghostProfileUser == username && ghostProfile.LastSuccessfullTOTPCounter != totpPeriodOf(t)  #C05.totp-one-time @C05
-//@   atcall github.com/pquerna/otp/totp.Validate requires (passcode string, secret string) :: timeNanos(old(state.totpLocalRateLimit[username].lastCheckTime)) + 2000000000 <= nowNanos()  #C14.totp-spacing @C14
+// the last-check time seen in the critical section entered most recently (taking the mutex forgets the map)
+//@   atcall sync.Mutex).Lock sets ghostTotpGateSeen int64 (m *sync.Mutex) :: timeNanos(state.totpLocalRateLimit[username].lastCheckTime)
+//@   atcall github.com/pquerna/otp/totp.Validate requires (passcode string, secret string) :: ghostTotpGateSeen + 2000000000 <= nowNanos()  #C14.totp-spacing @C14,C16
 //@   atcall github.com/pquerna/otp/totp.Validate requires (passcode string, secret string) :: timeNanos(old(state.totpLocalRateLimit[username].lockoutExpirationTime)) <= nowNanos()  #C14.totp-lockout-respected @C14
 // the gate is one critical section: when a code is evaluated, this attempt's time is already the published last-check
 // time (taking the mutex again would forget it), so attempts arriving meanwhile are refused by the gate
